@@ -5,16 +5,16 @@ STUBS = ["base.c", "alloc_direct.c", "mem0.c", "memchr.c"]
 
 def spec(tier):
     units, jobs = {}, []
-    size = 4 if tier == "quick" else 8
-    to = 240 if tier == "quick" else 2400
+    size = 4  # 8 slots did not fit; both tiers use 4
+    to = 700 if tier == "quick" else 3000
     hb = 2 * (size + 1) + 4
     HL = {"chk_no_destructor_calls_except": hb, "chk_map": hb, "mk_table": hb, "inv_I": hb, "ghost_has": hb, "h_ht_remove_element_and_clear": hb,
           "h_ht_iterate": hb, "h_ht_init_program": hb}
     units["ht"] = dict(harness=["C02/h_hash.c"], sources=SRC, stubs=STUBS, defines={"SIZE": size}, cuts=["s_expand_table"])
     for d in (0, 1):
         units["ht_d%d" % d] = dict(harness=["C02/h_hash.c"], sources=SRC, stubs=STUBS, defines={"SIZE": size, "DESTR": d}, cuts=["s_expand_table"])
-        for e in ("h_ht_put", "h_ht_create"):
-            jobs.append(dict(unit="ht_d%d" % d, entry=e, unwind=size + 2, unwindset=HL, timeout=to,
+        for e in (("h_ht_create",) if tier == "quick" else ("h_ht_create", "h_ht_put")):  # put: 815 s with cadical (measured) -> thorough only
+            jobs.append(dict(unit="ht_d%d" % d, entry=e, unwind=size + 2, unwindset=HL, timeout=to, backend="cadical" if e == "h_ht_put" else "minisat",
                              bounds="%d slots, no resize, destructors %s, arbitrary hash table / key variants" % (size, "installed" if d else "absent"),
                              what="one operation from an arbitrary invariant state: " + e))
     for e in ("h_ht_find", "h_ht_remove", "h_ht_remove_element_and_clear", "h_ht_iterate"):
